@@ -200,6 +200,28 @@ def _work(args):
     return out
 
 
+def report(ctx, row, shape, src, bad, percls):
+    """Turn the mismatches of one replayed case into violations (class = shape + call class + deviation signature)."""
+    seen = set()
+    for what, exp, obs in bad:
+        if what in seen:
+            continue
+        seen.add(what)
+        sig = ''
+        if what.startswith('walk/') and what.endswith('selffail') and '/self/' in what and 'seq' in obs \
+                and obs['seq'][:-1] == exp['seq'] and obs['lv'][:-1] == exp['lv'] and obs['seq'][-1:] == [exp['x']] \
+                and obs['lv'][-1:] == [True]:
+            sig = '/extraleave'   # the only deviation is one extra, unfiltered leave of the start node
+        clause, klass = 'Gen.' + ('WalkEqSpec' if what.startswith('walk/') else 'NavEqSpec'), f'gen/{shape}/{what}{sig}'
+        if ctx.known(clause, klass) is None:
+            percls[clause, klass] = percls.get((clause, klass), 0) + 1
+            if percls[clause, klass] > 2:   # two replay files per case class are enough
+                continue
+        ctx.violation(clause, klass,
+                      {'driver': 'c14_gen', 'shape': shape, 'row': {k: row[k] for k in ('n', 'par', 'inF')},
+                       'src': src, 'expected': exp, 'observed': obs})
+
+
 def run(ctx):
     import multiprocessing as mp
     maxn, parts = (5, 8)
@@ -208,30 +230,19 @@ def run(ctx):
     if len(rows) != want:
         raise common.Machinery(f'WalkGenCases produced {len(rows)} rows, expected {want}')
     idx = list(enumerate(rows))
-    nproc = 12
+    nproc = 10
     shards = [(idx[k::nproc],) for k in range(nproc)]
-    with mp.get_context('fork').Pool(nproc) as pool:
+    with mp.get_context('spawn').Pool(nproc) as pool:   # spawn: this runs in a thread next to the (V) pipeline
         res = pool.map(_work, shards)
     cases = 0
+    percls = {}
     for r in res:
         for i, shape, src, bad, n in r:
             row = rows[i]
             cases += 1
             ctx.evals += n
             ctx.distinct.add(('gen', shape, row['n'], tuple(row['par']), tuple(row['inF'])))
-            seen = set()
-            for what, exp, obs in bad:
-                if what in seen:
-                    continue
-                seen.add(what)
-                sig = ''
-                if what.startswith('walk/') and what.endswith('selffail') and '/self/' in what and 'seq' in obs \
-                        and obs['seq'][:-1] == exp['seq'] and obs['lv'][:-1] == exp['lv'] and obs['seq'][-1:] == [exp['x']] and obs['lv'][-1:] == [True]:
-                    sig = '/extraleave'
-                ctx.violation('Gen.' + ('WalkEqSpec' if what.startswith('walk/') else 'NavEqSpec'),
-                              f'gen/{shape}/{what}{sig}',
-                              {'driver': 'c14_gen', 'shape': shape, 'row': {k: row[k] for k in ('n', 'par', 'inF')},
-                               'src': src, 'expected': exp, 'observed': obs})
+            report(ctx, row, shape, src, bad, percls)
     ctx.extra['gen_cases'] = cases
     ctx.extra['gen_rows'] = len(rows)
     ctx.clause_counts['Gen.WalkEqSpec'] = cases
@@ -249,8 +260,7 @@ def replay(ctx, rp):
     print(src)
     for b in bad[:20]:
         print('MISMATCH', b)
-        ctx.violation('Gen.WalkEqSpec' if b[0].startswith('walk/') else 'Gen.NavEqSpec', f'gen/{rp["shape"]}/{b[0]}',
-                      {'driver': 'c14_gen', 'shape': rp['shape'], 'row': rp['row'], 'src': src})
+    report(ctx, row, rp['shape'], src, bad, {})
     ctx.states += 1
     ctx.transitions += 1
     return ctx.finish()
